@@ -3355,17 +3355,29 @@ impl LineBuf {
 				let Some((start,end)) = self.range_from_motion(motion) else {
 					return RegisterContent::Empty
 				};
-				if should_drain {
+				// dd, yy, dj, dG and friends work on whole lines: what they take is put back as lines
+				let linewise = matches!(motion,
+					MotionKind::InclusiveWithTargetCol(..) |
+					MotionKind::ExclusiveWithTargetCol(..) |
+					MotionKind::LineOffset(_)
+				) || matches!(self.select_mode, Some(SelectMode::Line(_)));
+				let content = if should_drain {
 					// If we are deleting or changing, we need to drain the content
 					// and update the grapheme indices
 					let drained = self.drain(start,end);
 					self.update_graphemes();
-					RegisterContent::Span(drained)
+					drained
 				} else {
 					// If we are yanking, we just need to get the content
-					let content = self.slice(start..end)
+					self.slice(start..end)
 						.map(|s| s.to_string())
-						.unwrap_or_default();
+						.unwrap_or_default()
+				};
+				if linewise {
+					// A line in a register always carries its newline, also when it was the unterminated last line
+					let content = if content.is_empty() || content.ends_with('\n') { content } else { content + "\n" };
+					RegisterContent::Line(content)
+				} else {
 					RegisterContent::Span(content)
 				}
 			}
